@@ -88,12 +88,36 @@ def run_copies(ctx, out):
         driver = rng.choice(["parfile", "parblock"])
         workers = rng.choice([1, 2, 4, 8])
         bs = rng.choice([1000, 4096, 65536, U64MAX])
+        # every fourth tree also holds a sparse file of three data segments: its copy is a WALK (seek, copy a segment, seek ...)
+        # in which a call can fail late, after earlier segments were copied and reported
+        sparse_rel = None
+        extra_total = 0
+        if k % 4 == 1:
+            import fsutil
+            sparse_rel = b"zz_sparse.bin"
+            MiB = 1 << 20
+            segs = [(0, 96 * 1024), (2 * MiB, 2 * MiB + 64 * 1024), (5 * MiB, 5 * MiB + 40000)]
+            fsutil.make_file(os.path.join(d, "src", "zz_sparse.bin"), 5 * MiB + 40000, segs, tag=k + 1, sync=True)
+            extra_total = 5 * MiB + 40000
+            bs = rng.choice([4096, 65536, U64MAX])
         upd = rng.choice(["rec", "chanwrap", "chanwrap", "chan"])
         fault = None
         rules = []
         files = [(rel, n) for rel, n in trees.walk_files(tree) if n[0] == "file" and n[1] > 0]
         others = [(rel, n) for rel, n in trees.walk_files(tree) if n[0] in ("fifo", "sock", "chr", "link")]
-        if others and (k % 3 == 2 or rng.random() < 0.2):
+        if sparse_rel is not None and rng.random() < 0.8:
+            victim = os.path.join(d, "dst", "src", "zz_sparse.bin")
+            vsrc = os.path.join(d, "src", "zz_sparse.bin")
+            which = rng.choice(["cfr", "cfr", "lseek", "cfr-zero"])
+            nth = rng.choice([2, 3, 4, 5])
+            fault = "sparse-walk-%s@%d" % (which, nth)
+            if which == "cfr":
+                rules = [("fail", rng.choice([5, 28]), 0, "copy_file_range", nth, "=" + vsrc)]
+            elif which == "lseek":
+                rules = [("fail", 5, 0, "lseek", nth + 2, "=" + vsrc)]
+            else:
+                rules = [("ret", 0, 0, "copy_file_range", nth, "=" + vsrc)]
+        elif others and (k % 3 == 2 or rng.random() < 0.2):
             rel, n = rng.choice(others)
             victim = os.path.join(d, "dst", "src", os.fsdecode(rel))
             if n[0] == "link":
@@ -124,7 +148,7 @@ def run_copies(ctx, out):
         run = xcp.run_supervised(sup, argv, d, d, rules=rules, fd9=upath, tag="u",
                                  seed=rng.randrange(1 << 30), hold_permille=rng.choice([0, 100, 300]), hold_maxms=3,
                                  timeout_ms=60000)
-        total = trees.total_file_size(tree)
+        total = trees.total_file_size(tree) + extra_total
         rep = dict(kind="copy", tree=trees.describe(tree), driver=driver, workers=workers, bs=bs, updater=upd, fault=fault,
                    argv=argv, stdout=run.stdout[-600:], stderr=run.stderr[-300:], exit=run.exit)
         out.case(("copy", k, driver, workers, bs, upd, fault), nontrivial=len(files) >= 2)
@@ -225,6 +249,13 @@ def run_copies(ctx, out):
                 pdst = os.path.join(os.fsencode(d), b"dst", b"src", rel)
                 if not os.path.lexists(pdst) or (n[0] == "link") != os.path.islink(pdst):
                     incomplete = True
+        if sparse_rel is not None:
+            try:
+                same = open(os.path.join(d, "dst", "src", "zz_sparse.bin"), "rb").read() == open(os.path.join(d, "src", "zz_sparse.bin"), "rb").read()
+            except OSError:
+                same = False
+            if not same:
+                incomplete = True
         had_error = any(t.startswith("E") or t.startswith("D E") for t in texts) or not ret.startswith("RET ok")
         if incomplete and not had_error:
             out.violation("destination incomplete but no Error update was sent and copy() returned Ok", rep)
@@ -257,7 +288,7 @@ def run(ctx, out):
     out.rule = ("(a) ChannelUpdater::send on generated send sequences x block sizes {1,2,7,100,4096,1MiB,u64::MAX,random} vs the "
                 "model's batching filter; (b) library copies (probe linked against libxcp) of generated trees with a recording "
                 "client updater, the real ChannelUpdater, and a wrapper logging the send order; both drivers, workers 1-8, random "
-                "thread holds, single injected faults (data calls, and symlink / mknod of trees with links and special files); updates are written to fd 9 so the supervisor orders them with the data "
+                "thread holds, single injected faults (data calls — also LATE in the segment walk of a sparse file —, and symlink / mknod of trees with links and special files); updates are written to fd 9 so the supervisor orders them with the data "
                 "calls. non-trivial = >=2 Copied sends / tree with >=2 non-empty files; distinct by input")
     run_channel_r0(ctx, out)
     run_copies(ctx, out)
